@@ -14,7 +14,7 @@ use std::mem::MaybeUninit;
 
 use rten_gemm::{BlockQuantizedGemm, BlockQuantizedMatrix, ComputeMode, GemmInputA, GemmInputB, GemmUninitOptions};
 use rten_tensor::prelude::*;
-use rten_tensor::{Contiguous, NdTensor, NdTensorView, Tensor};
+use rten_tensor::{Contiguous, NdTensorView, Tensor};
 use vp_core::{Ctx, Json, Samples, json};
 use vp_onnx::{Attr, Graph, Node, Tensor as OTensor, ValueInfo, dtype};
 
@@ -180,6 +180,8 @@ struct Data {
     quant: Vec<u8>,   // [n, k_blocks, block_size/2]
     scales: Vec<f32>, // [n, k_blocks]
     expected: Vec<f64>, // [batch, m, n]
+    /// sum of |lhs * w| per output: the scale of the floating-point accumulation
+    magnitude: Vec<f64>,
 }
 
 fn build(c: &Case) -> Data {
@@ -206,19 +208,23 @@ fn build(c: &Case) -> Data {
         }
     }
     let mut expected = vec![0f64; c.batch * c.m * c.n];
+    let mut magnitude = vec![0f64; c.batch * c.m * c.n];
     for b in 0..c.batch {
         for r in 0..c.m {
             for col in 0..c.n {
                 let mut acc = 0f64;
+                let mut mag = 0f64;
                 for kk in 0..k {
                     let w = (c.codes.at(col, kk) as i32 - 8) as f64 * c.scales.at(col, kk / c.block_size) as f64;
                     acc += lhs[(b * c.m + r) * k + kk] as f64 * w;
+                    mag += (lhs[(b * c.m + r) * k + kk] as f64 * w).abs();
                 }
                 expected[(b * c.m + r) * c.n + col] = acc;
+                magnitude[(b * c.m + r) * c.n + col] = mag;
             }
         }
     }
-    Data { lhs, quant, scales, expected }
+    Data { lhs, quant, scales, expected, magnitude }
 }
 
 fn with_bqm<R>(c: &Case, d: &Data, f: impl FnOnce(BlockQuantizedMatrix<f32>) -> R) -> Result<R, String> {
@@ -238,7 +244,7 @@ enum Verdict {
     Panic(String),
 }
 
-fn judge(c: &Case, out: &[f32], exp: &[f64]) -> Verdict {
+fn judge(c: &Case, out: &[f32], exp: &[f64], mag: &[f64]) -> Verdict {
     if out.len() != exp.len() {
         return Verdict::Mismatch(usize::MAX, out.len() as f32, exp.len() as f64);
     }
@@ -250,8 +256,9 @@ fn judge(c: &Case, out: &[f32], exp: &[f64]) -> Verdict {
                 return Verdict::Mismatch(i, out[i], exp[i]);
             }
         } else {
-            // scale of the accumulation: sum of |terms| is bounded by k * max|lhs| * 8 * max scale
-            let denom = exp[i].abs().max(1.0);
+            // relative to the scale of the accumulation (sum of |terms|): the standard
+            // forward-error measure for a dot product, robust to cancellation
+            let denom = mag[i].max(1e-30);
             let rel = (out[i] as f64 - exp[i]).abs() / denom;
             if !(rel <= 1e-5) {
                 return Verdict::Mismatch(i, out[i], exp[i]);
@@ -270,7 +277,7 @@ fn run_bqgemm(c: &Case, d: &Data) -> Verdict {
     match r {
         Err(p) => Verdict::Panic(p),
         Ok(Err(e)) | Ok(Ok(Err(e))) => Verdict::Error(e),
-        Ok(Ok(Ok(o))) => judge(c, &o, &d.expected),
+        Ok(Ok(Ok(o))) => judge(c, &o, &d.expected, &d.magnitude),
     }
 }
 
@@ -287,7 +294,7 @@ fn run_gemm_exec(c: &Case, d: &Data, exec: &rten_gemm::GemmExecutor<f32, f32, f3
     match r {
         Err(p) => Verdict::Panic(p),
         Ok(Err(e)) | Ok(Ok(Err(e))) => Verdict::Error(e),
-        Ok(Ok(Ok(o))) => judge(c, &o, &d.expected),
+        Ok(Ok(Ok(o))) => judge(c, &o, &d.expected, &d.magnitude),
     }
 }
 
@@ -438,7 +445,7 @@ fn run_operator(ctx: &Ctx, oc: &OpCase, t: &mut Tally, rejected: &mut u64) {
                 return;
             }
             let out = y.to_vec();
-            match judge(c, &out, &d.expected) {
+            match judge(c, &out, &d.expected, &d.magnitude) {
                 Verdict::Exact => t.exact += 1,
                 Verdict::Within(w) => {
                     t.within += 1;
@@ -502,7 +509,7 @@ pub fn run(ctx: Ctx) -> ! {
     let thorough = ctx.tier.is_thorough();
     let samples = Samples::new(24);
     let block_sizes: Vec<usize> = if thorough { vec![16, 32, 64, 128] } else { vec![16, 32, 64] };
-    let k_blocks: Vec<usize> = if thorough { vec![1, 2, 3, 4, 5, 8, 9, 17] } else { vec![1, 2, 3, 5, 9] };
+    let k_blocks: Vec<usize> = if thorough { vec![1, 2, 3, 4, 5, 8, 9, 17] } else { vec![1, 2, 3, 9] };
     let ns: Vec<usize> = vec![1, 2, 15, 16, 17, 33];
     let ms: Vec<usize> = vec![1, 2, 3];
     let batches: Vec<usize> = vec![1, 2, 3];
@@ -693,7 +700,7 @@ pub fn run(ctx: Ctx) -> ! {
         coverage,
         vec![
             "exact-operand families: LHS integers in [-127,127] (x power of two) with +-127 in every block, power-of-two scales: every product and partial sum is exactly representable and the int8 activation quantisation is lossless, so equality is the oracle in both compute modes".into(),
-            "float LHS family: Float mode only, |got-ref| <= 1e-5 * max(1,|ref|); Int8 mode is lossy by design for such inputs and is not compared there".into(),
+            "float LHS family: Float mode only, |got-ref| <= 1e-5 * sum|lhs_i*w_i| (forward error relative to the accumulation scale); Int8 mode is lossy by design for such inputs and is not compared there".into(),
             "Int8 compute mode runs on the ISA chosen by SimdInt8DotOp::dispatch (AVX-512 VNNI here); there is no hook to force the other int8-dot ISAs".into(),
             "zero point is the fixed 8 of 4-bit MatMulNBits; explicit zero_points and K not a multiple of the block size are requested and must either be rejected or be correct".into(),
         ],
